@@ -40,6 +40,13 @@
     partial sums (`lyap_partial_sums_cauchy`), distance to any exact solution
     (`lyap_error_to_solution`) and uniqueness of the solution (`lyap_solution_unique`). Termination
     also on the weighted domain `|A| w ≤ ρ w`, `w > 0`, `ρ < 1` (`lyap_terminates_weighted`).
+  * Last round. The limit of the Lyapunov iteration over Archimedean fields: existence, uniqueness,
+    bound, explicit rate, ε-convergence, PSD (`lyap_limit`), distance of every returned `X` to it
+    (`lyap_return_distance_to_solution`). Riccati: `H_j` is the `2^j`-th value-iteration iterate from 0
+    (`sda_H_is_riccati_iterate`); error formula `Xs − (H_j + γI) = A_j' (Xs − γI) Acl^(2^j)` with the
+    closed-loop matrix of the original problem (`sda_fixed_point_closed_loop_power`,
+    `ricc_closed_loop_is_witness`, `ricc_error_closed_loop`) and the end-to-end return contract
+    (`ricc_return_error`).
   `np.linalg.solve` enters through the hypothesis `SolSpec` (returned solutions solve an
   invertible system); `np.linalg.cond` values are inputs of the γ rule.
   What is not proved (decided by the spec run of harness/c06.py only):
@@ -52,6 +59,7 @@ import QEProofs.Lemmas.C06Gamma
 import QEProofs.Lemmas.C06Sda
 import QEProofs.Lemmas.C06Norm
 import QEProofs.Lemmas.C06NormW
+import QEProofs.Lemmas.C06Exist
 import Mathlib.Algebra.Order.Archimedean.Basic
 import QEProofs.Lemmas.C06LyapPsd
 
@@ -604,6 +612,83 @@ theorem sda_fixed_point_preserved {k : ℕ} (sol : M K → M K → Option (M K))
 example : PhiRel (k := 1) (K := ℚ) ((1 / 2 : ℚ) • 1) ((1 / 2 : ℚ) • 1) ((1 / 2 : ℚ) • 1) 0 ((1 / 2 : ℚ) • 1) :=
   ⟨(1 / 2 : ℚ) • 1, by simp, by simp⟩
 
+/-- **sda_H_is_riccati_iterate.** What the structured-doubling loop computes: `H_j` (the matrix whose
+    increments the stopping rule tests, and `X − gamma I` at return) is the `2^j`-th iterate, started at
+    `0`, of the one-step Riccati map `X ↦ H0 + A0' X (I + G0 X)^{-1} A0` of the initial triple — i.e. the
+    value-iteration iterate number `2^j` of the shifted problem. Precisely: every `2^j`-fold iterate `Y`
+    of that map from `0` (inverses by witnesses) equals `H_j`. All sizes, all `j`; `G0`, `H0` symmetric. -/
+theorem sda_H_is_riccati_iterate {k : ℕ} (sol : M K → M K → Option (M K)) (hsol : SolSpec sol k) (s : Sda K)
+    (hA : Dim s.A k k) (hG : Dim s.G k k) (hH : Dim s.H k k)
+    (hGs : (toMat k k s.G)ᵀ = toMat k k s.G) (hHs : (toMat k k s.H)ᵀ = toMat k k s.H)
+    (j : ℕ) (sj : Sda K) (h : sdaIter sol s j = some sj) (Y : Matrix (Fin k) (Fin k) K)
+    (hY : PhiRelN (toMat k k s.A) (toMat k k s.G) (toMat k k s.H) (2 ^ j) 0 Y) :
+    Y = toMat k k sj.H := by
+  obtain ⟨S, _, hYS⟩ := sda_doubling sol hsol s hA hG hH hGs hHs j sj h 0 Y hY
+  rw [hYS, Matrix.mul_zero, Matrix.zero_mul, add_zero]
+
+/-- non-vacuity: a one-fold iterate from `0` of the scalar triple `(1/2, 1/2, 1/2)` exists (it is `H = 1/2`) -/
+example : PhiRelN (k := 1) (K := ℚ) ((1 / 2 : ℚ) • 1) ((1 / 2 : ℚ) • 1) ((1 / 2 : ℚ) • 1) (2 ^ 0) 0
+    ((1 / 2 : ℚ) • 1) :=
+  ⟨0, rfl, (1 / 2 : ℚ) • 1, by simp, by simp⟩
+
+/-- **sda_fixed_point_closed_loop_power.** Error formula of the structured doubling (Riccati analogue of
+    `lyap_residual` / `lyap_error_to_solution`). Let `X` be a fixed point of the Riccati map of the initial
+    triple with witness `S` (`(I + G0 X) S = A0`, `X = H0 + A0' X S`; `S = (I + G0 X)^{-1} A0` is the
+    closed-loop matrix, see `ricc_closed_loop_is_witness`). Then for every `j` the triple after `j` passes
+    satisfies `(I + G_j X) S^(2^j) = A_j` and `X − H_j = A_j' X S^(2^j)`: the distance of `H_j` to the
+    solution is carried by the `2^j`-th power of the closed-loop matrix (so it vanishes quadratically
+    exactly when the solution is stabilising). All sizes, all `j`; `G0`, `H0` symmetric. -/
+theorem sda_fixed_point_closed_loop_power {k : ℕ} (sol : M K → M K → Option (M K)) (hsol : SolSpec sol k)
+    (s : Sda K) (hA : Dim s.A k k) (hG : Dim s.G k k) (hH : Dim s.H k k)
+    (hGs : (toMat k k s.G)ᵀ = toMat k k s.G) (hHs : (toMat k k s.H)ᵀ = toMat k k s.H)
+    (X S : Matrix (Fin k) (Fin k) K)
+    (hS : (1 + toMat k k s.G * X) * S = toMat k k s.A)
+    (hX : X = toMat k k s.H + (toMat k k s.A)ᵀ * X * S) :
+    ∀ (j : ℕ) (sj : Sda K), sdaIter sol s j = some sj →
+      (1 + toMat k k sj.G * X) * S ^ (2 ^ j) = toMat k k sj.A ∧
+      X - toMat k k sj.H = (toMat k k sj.A)ᵀ * X * S ^ (2 ^ j) := by
+  intro j
+  induction j with
+  | zero =>
+    intro sj h
+    simp only [sdaIter, Option.some.injEq] at h
+    subst h
+    rw [pow_zero, pow_one]
+    exact ⟨hS, sub_eq_of_eq_add' hX⟩
+  | succ j ih =>
+    intro sj h
+    simp only [sdaIter] at h
+    cases hprev : sdaIter sol s j with
+    | none => rw [hprev] at h; cases h
+    | some sp =>
+      rw [hprev] at h
+      obtain ⟨⟨dA, dG, dH⟩, gs, hs⟩ := sda_iter_symmetric sol hsol s hA hG hH hGs hHs j sp hprev
+      obtain ⟨i1, i2⟩ := ih sp hprev
+      have hXp : X = toMat k k sp.H + (toMat k k sp.A)ᵀ * X * S ^ (2 ^ j) := eq_add_of_sub_eq' i2
+      obtain ⟨V, va, _, eA, eG, eH⟩ := sdaStep_forms sol hsol sp sj dA dG dH h
+      have hT : (1 + toMat k k sp.G * (toMat k k sp.H + (toMat k k sp.A)ᵀ * X * S ^ (2 ^ j))) * S ^ (2 ^ j)
+          = toMat k k sp.A := by rw [← hXp]; exact i1
+      obtain ⟨c1, c2⟩ := sda_compose _ _ _ V X (S ^ (2 ^ j)) (S ^ (2 ^ j)) gs hs va i1 hT
+      have hpow : S ^ (2 ^ (j + 1)) = S ^ (2 ^ j) * S ^ (2 ^ j) := by rw [← pow_add, pow_succ, mul_two]
+      rw [← hXp] at c2
+      refine ⟨?_, ?_⟩
+      · rw [eG, eA, hpow]; exact c1
+      · rw [eH, eA, hpow]
+        have : X = toMat k k sp.H + (toMat k k sp.A)ᵀ * X * S ^ (2 ^ j) := hXp
+        -- c2 : H + A' X T = H1 + A1' X (S T) with the left side equal to X
+        have hx2 : X = toMat k k sp.H + (toMat k k sp.A)ᵀ * toMat k k sp.H * V * toMat k k sp.A
+            + (toMat k k sp.A * V * toMat k k sp.A)ᵀ * X * (S ^ (2 ^ j) * S ^ (2 ^ j)) := by
+          rw [← c2]; exact hXp
+        exact sub_eq_of_eq_add' hx2
+
+/-- non-vacuity: the scalar triple `(A, G, H) = (1, 1, 1/2)` has the fixed point `X = 1` with witness
+    `S = 1/2` (`(1 + 1·1)·1/2 = 1`, `1 = 1/2 + 1·1·1/2`) -/
+example : (1 + toMat 1 1 (M.ofRows [[(1 : ℚ)]]) * (1 : Matrix (Fin 1) (Fin 1) ℚ)) * ((1 / 2 : ℚ) • 1)
+      = toMat 1 1 (M.ofRows [[(1 : ℚ)]]) ∧
+    (1 : Matrix (Fin 1) (Fin 1) ℚ) = toMat 1 1 (M.ofRows [[(1 : ℚ) / 2]])
+      + (toMat 1 1 (M.ofRows [[(1 : ℚ)]]))ᵀ * 1 * ((1 / 2 : ℚ) • 1) := by
+  decide +kernel
+
 end doubling
 
 section nilpotent
@@ -944,5 +1029,239 @@ example : RowBoundW (fun p : Fin 2 => if p = 0 then (8 : ℚ) else 1)
 example : ¬ normInf (M.ofRows [[(1 : ℚ) / 2, 2], [0, 1 / 2]]) < 1 := by decide +kernel
 
 end lyapunov_total
+
+section lyapunov_limit
+variable {K : Type} [Field K] [LinearOrder K] [IsStrictOrderedRing K] [Archimedean K]
+
+/-- **lyap_limit.** The limit of the doubling iteration, over any Archimedean ordered field (ℚ, ℝ), on the
+    checkable domain `‖A‖∞ < 1` (decidable guard `normInf A < 1`): the equation `A Y A' − Y + B = 0` has
+    exactly one solution `Y`; `‖Y‖_max ≤ C = ‖B‖_max/(1 − ‖A‖∞²)`; the iterates converge to it with the
+    explicit doubly-exponential rate `|(Y − γ_k)_pq| ≤ C · (‖A‖∞^(2^k))²`, in particular
+    `∀ ε > 0 ∃ k0 ∀ k ≥ k0: ‖Y − γ_k‖_max ≤ ε`; and `Y` is symmetric PSD when `B` is. -/
+theorem lyap_limit {n : ℕ} (A B : M K) (hA : Dim A n n) (hB : Dim B n n) (hρ : normInf A < 1) :
+    ∃ Y : Matrix (Fin n) (Fin n) K,
+      toMat n n A * Y * (toMat n n A)ᵀ - Y + toMat n n B = 0 ∧
+      (∀ Z, toMat n n A * Z * (toMat n n A)ᵀ - Z + toMat n n B = 0 → Z = Y) ∧
+      (∀ p q, |Y p q| ≤ lyapC A B) ∧
+      (∀ k p q, |(Y - toMat n n (lyapIter A B k).2) p q| ≤ lyapC A B * (normInf A ^ (2 ^ k)) ^ 2) ∧
+      (∀ ε, 0 < ε → ∃ k0, ∀ k, k0 ≤ k → ∀ p q, |(Y - toMat n n (lyapIter A B k).2) p q| ≤ ε) ∧
+      (PSD (toMat n n B) → PSD Y) := by
+  obtain ⟨ha, hρ0, hb, hβ⟩ := lyap_norm_hyps A B hA hB
+  obtain ⟨Y, hY, huniq⟩ := stein_exists_unique (toMat n n A) (toMat n n B) (normInf A) ha hρ0 hρ
+  have hbound : EntryBound Y (lyapC A B) :=
+    solution_entryBound _ _ _ _ ha hρ0 hρ hb hβ Y hY
+  have hC : 0 ≤ lyapC A B := div_nonneg hβ (by nlinarith)
+  have herr : ∀ k p q, |(Y - toMat n n (lyapIter A B k).2) p q| ≤ lyapC A B * (normInf A ^ (2 ^ k)) ^ 2 :=
+    fun k => (lyap_error_to_solution A B hA hB Y hY _ hbound hC k).2
+  refine ⟨Y, hY, huniq, hbound, herr, ?_, ?_⟩
+  · intro ε hε
+    obtain ⟨k0, hk0, _⟩ := lyap_terminates_archimedean ε A B hA hB hρ hε
+    refine ⟨k0, fun k hk p q => le_trans (herr k p q) (le_trans ?_ hk0)⟩
+    apply mul_le_mul_of_nonneg_left _ hC
+    apply pow_le_pow_left₀ (pow_nonneg hρ0 _)
+    exact pow_le_pow_of_le_one hρ0 (le_of_lt hρ) (Nat.pow_le_pow_right (by norm_num) hk)
+  · intro hpsd
+    -- symmetric: the transpose solves the same equation
+    have hsym : Yᵀ = Y := by
+      apply huniq
+      have := congrArg transpose hY
+      rw [transpose_add, transpose_sub, transpose_mul, transpose_mul, transpose_transpose, hpsd.1,
+        transpose_zero, ← Matrix.mul_assoc] at this
+      exact this
+    refine ⟨hsym, fun x => ?_⟩
+    have h2 : normInf A ^ 2 < 1 := by nlinarith
+    -- squeeze: -xᵀYx ≤ 0 + C (Σ|x|)² (ρ²)^m for all m
+    have hsq : -(qf Y x) ≤ 0 := by
+      apply le_of_forall_le_add_geom _ _ (lyapC A B * (∑ p, |x p|) ^ 2) (normInf A ^ 2)
+        (mul_nonneg hC (sq_nonneg _)) (sq_nonneg _) h2
+      intro m
+      have e := solution_eq_dsum_add_tail (toMat n n A) (toMat n n B) (toMat n n A)ᵀ Y hY m
+      have hq : qf Y x = qf (dsum (toMat n n A) (toMat n n B) (toMat n n A)ᵀ m) x
+          + qf (toMat n n A ^ m * Y * (toMat n n A)ᵀ ^ m) x := by
+        conv_lhs => rw [e]
+        rw [qf_add]
+      have h1 : 0 ≤ qf (dsum (toMat n n A) (toMat n n B) (toMat n n A)ᵀ m) x := (dsum_psd _ hpsd m).2 x
+      have hM : EntryBound (-(toMat n n A ^ m * Y * (toMat n n A)ᵀ ^ m))
+          (normInf A ^ m * lyapC A B * normInf A ^ m) := by
+        intro p q
+        rw [Matrix.neg_apply, abs_neg, ← transpose_pow]
+        exact entryBound_conj (rowBound_pow ha hρ0 m) (pow_nonneg hρ0 m) hbound hC p q
+      have h3 := qf_le_of_entries _ _ hM x
+      have hneg : qf (-(toMat n n A ^ m * Y * (toMat n n A)ᵀ ^ m)) x
+          = -(qf (toMat n n A ^ m * Y * (toMat n n A)ᵀ ^ m) x) := by
+        have := qf_sub (0 : Matrix (Fin n) (Fin n) K) (toMat n n A ^ m * Y * (toMat n n A)ᵀ ^ m) x
+        rw [zero_sub, qf_zero, zero_sub] at this
+        exact this
+      rw [hneg] at h3
+      have h5 : normInf A ^ m * lyapC A B * normInf A ^ m * (∑ p, |x p|) ^ 2
+          = lyapC A B * (∑ p, |x p|) ^ 2 * (normInf A ^ 2) ^ m := by
+        rw [← pow_mul, mul_comm 2 m, pow_mul]; ring
+      linarith
+    linarith
+
+/-- **lyap_return_distance_to_solution.** Every normally returned `X` (any `tol`, `max_it`, `B`) is within
+    `C · (‖A‖∞^(2^(its-1)))²` of the solution `Y` of the Lyapunov equation, entrywise (`‖A‖∞ < 1`). -/
+theorem lyap_return_distance_to_solution {n : ℕ} (tol : K) (maxIt : ℕ) (A B X : M K) (its : ℕ) (ds : List K)
+    (hA : Dim A n n) (hB : Dim B n n) (hρ : normInf A < 1)
+    (h : lyapDoubling tol maxIt A B = .ok X its ds)
+    (Y : Matrix (Fin n) (Fin n) K) (hY : toMat n n A * Y * (toMat n n A)ᵀ - Y + toMat n n B = 0) :
+    ∀ p q, |(Y - toMat n n X) p q| ≤ lyapC A B * (normInf A ^ (2 ^ (its - 1))) ^ 2 := by
+  obtain ⟨ha, hρ0, hb, hβ⟩ := lyap_norm_hyps A B hA hB
+  have hbound : EntryBound Y (lyapC A B) := solution_entryBound _ _ _ _ ha hρ0 hρ hb hβ Y hY
+  have hC : 0 ≤ lyapC A B := div_nonneg hβ (by nlinarith)
+  obtain ⟨_, _, hX, _, _⟩ := lyap_return_spec tol maxIt A B X its ds hA hB h
+  have hXk : toMat n n X = toMat n n (lyapIter A B (its - 1)).2 := by
+    rw [hX, (lyap_doubling_sum A B hA hB (its - 1)).2]
+  rw [hXk]
+  exact (lyap_error_to_solution A B hA hB Y hY _ hbound hC (its - 1)).2
+
+/-- non-vacuity: the guard holds for `A = [[1/2, 1/4], [0, 1/3]]` over ℚ (`‖A‖∞ = 3/4`), and the loop
+    returns normally on it (see the examples of `lyap_total_correct`) -/
+example : normInf (M.ofRows [[(1 : ℚ) / 2, 1 / 4], [0, 1 / 3]]) < 1 := by decide +kernel
+example : ∃ Y : Matrix (Fin 2) (Fin 2) ℚ,
+    toMat 2 2 (M.ofRows [[(1 : ℚ) / 2, 1 / 4], [0, 1 / 3]]) * Y
+        * (toMat 2 2 (M.ofRows [[(1 : ℚ) / 2, 1 / 4], [0, 1 / 3]]))ᵀ - Y + toMat 2 2 (ident 2 : M ℚ) = 0 := by
+  obtain ⟨Y, hY, _⟩ := lyap_limit (M.ofRows [[(1 : ℚ) / 2, 1 / 4], [0, 1 / 3]]) (ident 2 : M ℚ)
+    ⟨rfl, rfl⟩ ⟨rfl, rfl⟩ (by decide +kernel)
+  exact ⟨Y, hY⟩
+
+end lyapunov_limit
+
+section riccati_error
+variable {K : Type} [CommRing K]
+
+/-- **ricc_closed_loop_is_witness.** For the initial triple the code builds (`riccInit`, lines 198-204) and
+    any `H` with `S = R + B'XB` invertible (`X = H + gamma I`, `Si` a right inverse), the closed-loop matrix
+    `A − B F`, `F = (R + B'XB)^{-1}(N + B'XA)`, satisfies `(I + G0 H)(A − B F) = A0`: it is the witness
+    `(I + G0 H)^{-1} A0` of the Riccati map of `(A0, G0, H0)` at `H`. -/
+theorem ricc_closed_loop_is_witness {k n : ℕ} (sol : M K → M K → Option (M K)) (hsol : SolSpec sol n) (g : K)
+    (A B Q R N : M K) (s0 : Sda K)
+    (hA : Dim A k k) (hB : Dim B k n) (hQ : Dim Q k k) (hR : Dim R n n) (hN : Dim N n k)
+    (h0 : riccInit sol g A B Q R N = some s0)
+    (H : Matrix (Fin k) (Fin k) K) (Si : Matrix (Fin n) (Fin n) K)
+    (hSi2 : (toMat n n R + (toMat k n B)ᵀ * (H + g • (1 : Matrix (Fin k) (Fin k) K)) * toMat k n B) * Si = 1) :
+    (1 + toMat k k s0.G * H)
+        * (toMat k k A - toMat k n B * Si
+            * (toMat n k N + (toMat k n B)ᵀ * (H + g • (1 : Matrix (Fin k) (Fin k) K)) * toMat k k A))
+      = toMat k k s0.A := by
+  obtain ⟨_, _, _, V, va, _, eA, eG, _⟩ := riccInit_toMat sol hsol g A B Q R N s0 hA hB hQ hR hN h0
+  have eS : toMat n n R + (toMat k n B)ᵀ * (H + g • (1 : Matrix (Fin k) (Fin k) K)) * toMat k n B
+      = (toMat n n R + g • ((toMat k n B)ᵀ * toMat k n B)) + (toMat k n B)ᵀ * H * toMat k n B := by
+    simp only [Matrix.mul_add, Matrix.add_mul, Matrix.mul_smul, Matrix.smul_mul, Matrix.mul_one]
+    abel
+  have eM : toMat n k N + (toMat k n B)ᵀ * (H + g • (1 : Matrix (Fin k) (Fin k) K)) * toMat k k A
+      = (toMat n k N + g • ((toMat k n B)ᵀ * toMat k k A)) + (toMat k n B)ᵀ * H * toMat k k A := by
+    simp only [Matrix.mul_add, Matrix.add_mul, Matrix.mul_smul, Matrix.smul_mul, Matrix.mul_one]
+    abel
+  rw [eS] at hSi2
+  rw [eM, eG, eA]
+  exact closed_loop_witness _ H _ _ _ V _ Si va rfl hSi2
+
+/-- **ricc_error_closed_loop.** Error formula of `solve_discrete_riccati` (doubling): if `X = H + gamma I`
+    is a symmetric solution of the Riccati equation with cross term (`R`, `Q` symmetric, `R + B'XB` and
+    `I + G0 H` invertible, inverses given), then after `j` structured-doubling passes
+    `X − (H_j + gamma I) = A_j' (X − gamma I) Acl^(2^j)`, `Acl = A − B (R + B'XB)^{-1}(N + B'XA)` the
+    closed-loop matrix of the ORIGINAL problem: the iterate returned by the code differs from a solution
+    by a term carried by the `2^j`-th power of that solution's closed loop (quadratic convergence to the
+    stabilising solution, and only to it). All sizes `k`, `n`, all `j`. -/
+theorem ricc_error_closed_loop {k n : ℕ} (sol : M K → M K → Option (M K))
+    (hsolk : SolSpec sol k) (hsoln : SolSpec sol n) (g : K)
+    (A B Q R N : M K) (s0 : Sda K)
+    (hA : Dim A k k) (hB : Dim B k n) (hQ : Dim Q k k) (hR : Dim R n n) (hN : Dim N n k)
+    (hQs : (toMat k k Q)ᵀ = toMat k k Q) (hRs : (toMat n n R)ᵀ = toMat n n R)
+    (h0 : riccInit sol g A B Q R N = some s0)
+    (H Wi : Matrix (Fin k) (Fin k) K) (Si : Matrix (Fin n) (Fin n) K) (hH : Hᵀ = H)
+    (hSi1 : Si * (toMat n n R + (toMat k n B)ᵀ * (H + g • (1 : Matrix (Fin k) (Fin k) K)) * toMat k n B) = 1)
+    (hSi2 : (toMat n n R + (toMat k n B)ᵀ * (H + g • (1 : Matrix (Fin k) (Fin k) K)) * toMat k n B) * Si = 1)
+    (hW : (1 + toMat k k s0.G * H) * Wi = 1) (hW' : Wi * (1 + toMat k k s0.G * H) = 1)
+    (hdare : H + g • (1 : Matrix (Fin k) (Fin k) K)
+        = (toMat k k A)ᵀ * (H + g • (1 : Matrix (Fin k) (Fin k) K)) * toMat k k A
+          - (toMat n k N + (toMat k n B)ᵀ * (H + g • (1 : Matrix (Fin k) (Fin k) K)) * toMat k k A)ᵀ * Si
+            * (toMat n k N + (toMat k n B)ᵀ * (H + g • (1 : Matrix (Fin k) (Fin k) K)) * toMat k k A)
+          + toMat k k Q) :
+    ∀ (j : ℕ) (sj : Sda K), sdaIter sol s0 j = some sj →
+      (H + g • (1 : Matrix (Fin k) (Fin k) K)) - (toMat k k sj.H + g • (1 : Matrix (Fin k) (Fin k) K))
+        = (toMat k k sj.A)ᵀ * H
+          * (toMat k k A - toMat k n B * Si
+              * (toMat n k N + (toMat k n B)ᵀ * (H + g • (1 : Matrix (Fin k) (Fin k) K)) * toMat k k A))
+            ^ (2 ^ j) := by
+  intro j sj hj
+  obtain ⟨⟨dA, dG, dH⟩, gs, hs⟩ := ricc_init_symmetric sol hsoln g A B Q R N s0 hA hB hQ hR hN hQs hRs h0
+  have hfix := (riccati_fixed_point_iff sol hsoln g A B Q R N s0 hA hB hQ hR hN hRs h0 H Wi Si hH
+    hSi1 hSi2 hW).mp hdare
+  have hwit := ricc_closed_loop_is_witness sol hsoln g A B Q R N s0 hA hB hQ hR hN h0 H Si hSi2
+  have hcl : toMat k k A - toMat k n B * Si
+        * (toMat n k N + (toMat k n B)ᵀ * (H + g • (1 : Matrix (Fin k) (Fin k) K)) * toMat k k A)
+      = Wi * toMat k k s0.A := by
+    rw [← hwit, ← Matrix.mul_assoc, hW', Matrix.one_mul]
+  have hX : H = toMat k k s0.H + (toMat k k s0.A)ᵀ * H
+      * (toMat k k A - toMat k n B * Si
+        * (toMat n k N + (toMat k n B)ᵀ * (H + g • (1 : Matrix (Fin k) (Fin k) K)) * toMat k k A)) := by
+    rw [hcl]
+    have : (toMat k k s0.A)ᵀ * H * (Wi * toMat k k s0.A) = (toMat k k s0.A)ᵀ * (H * Wi) * toMat k k s0.A := by
+      simp only [Matrix.mul_assoc]
+    rw [this]; exact hfix
+  have := (sda_fixed_point_closed_loop_power sol hsolk s0 dA dG dH gs hs H _ hwit hX j sj hj).2
+  rw [add_sub_add_right_eq_sub]
+  exact this
+
+/-- non-vacuity: scalar instance `A = B = Q = 1, R = 2, N = 0, gamma = 1` with the exact 1×1 solver: the
+    initial triple exists and three passes run; its Riccati solution is `X = 2` (`H = 1`, closed loop `1/2`) -/
+example : ((riccInit sol1 (1 : ℚ) (M.ofRows [[1]]) (M.ofRows [[1]]) (M.ofRows [[1]]) (M.ofRows [[2]])
+    (M.ofRows [[0]])).bind fun s => sdaIter sol1 s 3).isSome = true := by decide +kernel
+
+end riccati_error
+
+section riccati_return_error
+variable {K : Type} [Field K] [LinearOrder K] [IsStrictOrderedRing K]
+
+/-- **ricc_return_error.** End-to-end contract of `solve_discrete_riccati(method="doubling")` after the
+    choice of `gamma`: if the call returns normally `X` after `p` passes, then for EVERY symmetric solution
+    `Xs = H + gamma I` of the Riccati equation (hypotheses of `ricc_error_closed_loop`)
+    `Xs − X = A_p' (Xs − gamma I) Acl^(2^p)` with `Acl` the closed-loop matrix of `Xs` and `A_p` the first
+    component of the triple after `p` passes; moreover `1 ≤ p ≤ max_iter` and `X` is symmetric. -/
+theorem ricc_return_error {k n : ℕ} (sol : M K → M K → Option (M K))
+    (hsolk : SolSpec sol k) (hsoln : SolSpec sol n) (tol : K) (maxIter : ℕ) (g : K)
+    (A B Q R N X : M K) (p : ℕ) (es : List K)
+    (hA : Dim A k k) (hB : Dim B k n) (hQ : Dim Q k k) (hR : Dim R n n) (hN : Dim N n k)
+    (hQs : (toMat k k Q)ᵀ = toMat k k Q) (hRs : (toMat n n R)ᵀ = toMat n n R)
+    (h : riccDoubling sol tol maxIter g A B Q R N = some (.ok X p es))
+    (H Wi : Matrix (Fin k) (Fin k) K) (Si : Matrix (Fin n) (Fin n) K) (hH : Hᵀ = H)
+    (hSi1 : Si * (toMat n n R + (toMat k n B)ᵀ * (H + g • (1 : Matrix (Fin k) (Fin k) K)) * toMat k n B) = 1)
+    (hSi2 : (toMat n n R + (toMat k n B)ᵀ * (H + g • (1 : Matrix (Fin k) (Fin k) K)) * toMat k n B) * Si = 1)
+    (hW : ∀ s0, riccInit sol g A B Q R N = some s0 →
+      (1 + toMat k k s0.G * H) * Wi = 1 ∧ Wi * (1 + toMat k k s0.G * H) = 1)
+    (hdare : H + g • (1 : Matrix (Fin k) (Fin k) K)
+        = (toMat k k A)ᵀ * (H + g • (1 : Matrix (Fin k) (Fin k) K)) * toMat k k A
+          - (toMat n k N + (toMat k n B)ᵀ * (H + g • (1 : Matrix (Fin k) (Fin k) K)) * toMat k k A)ᵀ * Si
+            * (toMat n k N + (toMat k n B)ᵀ * (H + g • (1 : Matrix (Fin k) (Fin k) K)) * toMat k k A)
+          + toMat k k Q) :
+    1 ≤ p ∧ p ≤ maxIter ∧ (toMat k k X)ᵀ = toMat k k X ∧
+    ∃ s0 sp, riccInit sol g A B Q R N = some s0 ∧ sdaIter sol s0 p = some sp ∧
+      (H + g • (1 : Matrix (Fin k) (Fin k) K)) - toMat k k X
+        = (toMat k k sp.A)ᵀ * H
+          * (toMat k k A - toMat k n B * Si
+              * (toMat n k N + (toMat k n B)ᵀ * (H + g • (1 : Matrix (Fin k) (Fin k) K)) * toMat k k A))
+            ^ (2 ^ p) := by
+  obtain ⟨s0, sp, sprev, h0, h1, h2, hsp, _, hX, _⟩ := ricc_return_spec sol tol maxIter g A B Q R N X p es h
+  have hsym := ricc_returned_symmetric sol hsolk hsoln tol maxIter g A B Q R N X p es hA hB hQ hR hN hQs hRs h
+  obtain ⟨hW1, hW2⟩ := hW s0 h0
+  obtain ⟨⟨dA, dG, dH⟩, gs, hs⟩ := ricc_init_symmetric sol hsoln g A B Q R N s0 hA hB hQ hR hN hQs hRs h0
+  obtain ⟨⟨_, _, dHp⟩, _, _⟩ := sda_iter_symmetric sol hsolk s0 dA dG dH gs hs p sp hsp
+  have hI : Dim (ident Q.nr : M K) k k := by rw [hQ.nr]; exact dim_ident k
+  have hIm : toMat k k (ident Q.nr : M K) = 1 := by rw [hQ.nr]; exact toMat_ident k
+  have hXm : toMat k k X = toMat k k sp.H + g • (1 : Matrix (Fin k) (Fin k) K) := by
+    rw [hX, toMat_madd dHp, toMat_smul g hI, hIm]
+  refine ⟨h1, h2, hsym, s0, sp, h0, hsp, ?_⟩
+  rw [hXm]
+  exact ricc_error_closed_loop sol hsolk hsoln g A B Q R N s0 hA hB hQ hR hN hQs hRs h0 H Wi Si hH
+    hSi1 hSi2 hW1 hW2 hdare p sp hsp
+
+/-- non-vacuity: the scalar instance above does return normally (exact 1×1 solver, `tol = 1/10^10`) -/
+example : (match riccDoubling sol1 ((1 : ℚ) / 10000000000) 500 1 (M.ofRows [[1]]) (M.ofRows [[1]])
+    (M.ofRows [[1]]) (M.ofRows [[2]]) (M.ofRows [[0]]) with
+    | some (.ok _ p _) => decide (1 ≤ p) | _ => false) = true := by decide +kernel
+
+end riccati_return_error
 
 end QE.C06
